@@ -121,6 +121,21 @@ fn dedups<const D: usize>(id: &str, rng: &mut Rng, out: &mut Out) {
             pts.push((0..D).map(|_| rng.range(-4, 4) as f64).collect());
         }
     }
+    // large coordinates relative to the tolerance: |c / eps| beyond 2^53 (a hash grid can no longer
+    // key the cell) and beyond 2^63 (quantisation to i64 fails): the fallback paths of the
+    // epsilon variants, reached in the middle of the input
+    if rng.chance(1, 3) {
+        let k = [50i32, 53, 54, 62, 63, 64, 70][rng.below(7) as usize];
+        let big = eps * 2f64.powi(k);
+        let nbig = 1 + rng.below(3) as usize;
+        for _ in 0..nbig {
+            let at = rng.below(pts.len() as u64 + 1) as usize;
+            let mut p: Vec<f64> = (0..D).map(|_| rng.range(-3, 3) as f64).collect();
+            let ax = rng.below(D as u64) as usize;
+            p[ax] = big * rng.range(1, 3) as f64 * if rng.chance(1, 2) { 1.0 } else { -1.0 };
+            pts.insert(at, p);
+        }
+    }
     let vs = mk::<D>(&pts, rng);
     let mut run = |name: &str, variant: i32, f: &dyn Fn() -> Vec<V<D>>, out: &mut Out| {
         let r = catch(f);
